@@ -440,14 +440,28 @@ fn run_push(l: &[Tree]) -> Option<Tree> {
         return None;
     }
     let mut first: Option<Tree> = None;
+    let mut first_built = None;
+    let mut first_final = None;
     let mut all_equal = true;
     for perm in permutations(inputs.len()) {
         let mut st2 = st.to_vec();
         st2[8] = L(perm.iter().map(|&i| inputs[i].clone()).collect());
         let state = mk_state(&L(st2), &strings)?;
+        // the states themselves (`==` on the whole state), as built and as left by the run, must not remember the order of
+        // the declarations either
+        match &first_built {
+            None => first_built = Some(state.clone()),
+            Some(b) => all_equal &= *b == state,
+        }
         for _ in 0..2 {
             let o = match state.clone().run_to_completion() {
-                Ok(s) => tl![A(0), state_tree(&s, &strings), A(0)],
+                Ok(s) => {
+                    match &first_final {
+                        None => first_final = Some(s.clone()),
+                        Some(b) => all_equal &= *b == s,
+                    }
+                    tl![A(0), state_tree(&s, &strings), A(0)]
+                }
                 Err(e) => {
                     let d = format!("{e:?}");
                     let k = fatal_kind(&d, 3);
